@@ -89,6 +89,14 @@ def gen_fixed(rng):
         if not any(row):
             row[rng.randrange(n)] = "v"
         rows.append(row)
+    footer = [rng.choice(["Total: 3 rows", "Total:", "", "Total: x  y"]) for _ in range(rng.randint(1, 3))] if rng.random() < 0.3 else []
+    if footer and rows and rng.random() < 0.5:
+        # the footer marker inside a cell of the last data rows (not at the start of the line): still data
+        for r in rows[-rng.randint(1, 2):]:
+            c = rng.randrange(n)
+            r[c] = rng.choice(["sub-Total:", "(Total:)", "xTotal:"]) if c == 0 else rng.choice(["Total:", "sub-Total:", "Total: 2"])
+            if c != 0 and not r[0]:
+                r[0] = "v"
     widths = []
     for c in range(n):
         w = max([len(headers[c])] + [len(r[c]) for r in rows]) + rng.randint(1, 3)
@@ -103,7 +111,6 @@ def gen_fixed(rng):
             if not any(shown in h or h in shown.split() for i, h in enumerate(headers) if i != c) and new not in headers:
                 subst = [c, shown, new]
     junk = [rng.choice(["# junk line", "Warning: something", "", "   leading text"]) for _ in range(rng.randint(0, 3))] if rng.random() < 0.4 else []
-    footer = [rng.choice(["Total: 3 rows", "Total:", "", "Total: x  y"]) for _ in range(rng.randint(1, 3))] if rng.random() < 0.3 else []
     return {"kind": "fixed", "headers": headers, "widths": widths, "rows": rows, "junk": junk, "footer": footer, "subst": subst,
             "rstrip": rng.random() < 0.5}
 
@@ -144,9 +151,15 @@ def gen_delim(rng):
             else:
                 row[0] = "k"
         rows.append(row)
+    footer = rng.random() < 0.25
+    if footer and rows and rng.random() < 0.5:
+        # the footer marker inside a cell of the last data rows (not at the start of the line): still data
+        for r in rows[-rng.randint(1, 2):]:
+            if len(r) >= 2 and r[0].strip() and not r[0].strip().startswith("Total"):
+                r[rng.randrange(1, len(r))] = rng.choice(["Total", "subTotal", "Totals"])
     pad = rng.random() < 0.5 and strip and delim is not None
     return {"kind": "delim", "delim": delim, "heads": heads, "rows": rows, "strip": strip, "max_splits": max_splits, "pad": pad,
-            "junk": rng.random() < 0.25, "footer": rng.random() < 0.25, "raw_key": rng.choice([None, None, "raw"])}
+            "junk": rng.random() < 0.25, "footer": footer, "raw_key": rng.choice([None, None, "raw"])}
 
 
 def gen_kv(rng):
